@@ -440,7 +440,18 @@ def _api_monitor(seed, i, fam, n, out):
     a = L(rand_alg(seed, ("ma", i), (n,), fam, dt)); p = L(rng.randn(seed, ("mp", i), (n, 3), dt))
     p4 = L(rng.randn(seed, ("mp4", i), (n, 4), dt))
     Z = L(rand_grp(seed, ("mZ", i), (5,), fam, dt))
-    calls = [("Exp", lambda: a.Exp(), [a]), ("Log", lambda: X.Log(), [X]), ("Inv", lambda: X.Inv(), [X]),
+    # special values: exact zeros in an algebra element (first item all zero; last component -- the log-scale of
+    # rxso3 / sim3 -- zero in every item), the identity as an operand, the origin among the points
+    a0r = a.tensor().clone(); a0r[0] = 0.0; a0r[..., -1] = 0.0
+    a0 = L(pp.LieTensor(a0r, ltype=a.ltype))
+    Id = L(pp.LieTensor(pp.identity_like(X).tensor().to(dt), ltype=X.ltype))
+    pz = p.clone() if not strided else L(p.clone()); pz[0] = 0.0
+    calls = [("Exp:zeros", lambda: a0.Exp(), [a0]), ("Retr:zeros", lambda: X.Retr(a0), [X, a0]), ("add:zeros", lambda: X + a0.tensor(), [X, a0]),
+             ("Log:identity", lambda: Id.Log(), [Id]), ("matmul:identity", lambda: Id @ X, [Id, X]), ("Act3:origin", lambda: X.Act(pz), [X, pz]),
+             ("Jinvp:zeros", lambda: X.Jinvp(a0), [X, a0]), ("Adj:zeros", lambda: X.Adj(a0), [X, a0]),
+             ("add:alpha", lambda: X.add(a.tensor(), alpha=0.5), [X, a]), ("pp.add:alpha", lambda: pp.add(X, a.tensor(), alpha=2), [X, a]),
+             ("pp.add:alpha:algebra", lambda: pp.add(a, a0.tensor(), alpha=3), [a, a0]), ("pp.mul", lambda: pp.mul(X, Y), [X, Y]),
+             ("Exp", lambda: a.Exp(), [a]), ("Log", lambda: X.Log(), [X]), ("Inv", lambda: X.Inv(), [X]),
              ("matmul", lambda: X @ Y, [X, Y]), ("mul", lambda: X * Y, [X, Y]), ("Act3", lambda: X.Act(p), [X, p]),
              ("Act4", lambda: X.Act(p4), [X, p4]), ("Adj", lambda: X.Adj(a), [X, a]), ("AdjT", lambda: X.AdjT(a), [X, a]),
              ("Jinvp", lambda: X.Jinvp(a), [X, a]), ("Retr", lambda: X.Retr(a), [X, a]), ("add", lambda: X + a.tensor(), [X, a]),
@@ -453,6 +464,7 @@ def _api_monitor(seed, i, fam, n, out):
         try:
             fn()
         except Exception:
+            out.probe("monitor1:call-failed:" + name)
             continue            # an API call failing is other properties' business
         out.probe("monitor:api-call")
         for b, t in zip(before, args):
@@ -533,6 +545,7 @@ def _api_monitor2(seed, i, fam, n, out):
         sb = pp.utils.ReduceToBason(steps=4, patience=2, decreasing=1e-3)
         sb.step(lb0); sb.step(lb1); sb.reset(); sb.step(lb0)
     # a filter whose noise covariances are given at construction, used, re-tuned through the setter and used again
+    Rtiny = torch.diag(torch.tensor([1e-8, 1e-3, 1e-12], dtype=dt))       # a very accurate sensor
     Q2, R2 = torch.eye(3, dtype=dt) * 0.3, torch.eye(3, dtype=dt) * 0.2
     Q1, R1 = torch.eye(3, dtype=dt) * 0.1, torch.eye(3, dtype=dt) * 0.05
     def retune(cls):
@@ -550,6 +563,9 @@ def _api_monitor2(seed, i, fam, n, out):
         ("EKF:retuned-between-steps", retune(pp.module.EKF), [Q1, R1, Q2, R2, xk, Ppsd]),
         ("UKF:retuned-between-steps", retune(pp.module.UKF), [Q1, R1, Q2, R2, xk, Ppsd]),
         ("PF:retuned-between-steps", retune(pp.module.PF), [Q1, R1, Q2, R2, xk, Ppsd]),
+        ("PF:accurate-sensor", lambda: pp.module.PF(_Lin(), Qk, Rtiny)(xk, xk * 1.1, xk * 0.0, Ppsd + Qk, R=Rtiny), [Rtiny, Qk, xk]),
+        ("EKF:accurate-sensor", lambda: pp.module.EKF(_Lin(), Qk, Rtiny)(xk, xk * 1.1, xk * 0.0, Ppsd + Qk, R=Rtiny), [Rtiny, Qk, xk]),
+        ("UKF:accurate-sensor", lambda: pp.module.UKF(_Lin(), Qk, Rtiny)(xk, xk * 1.1, xk * 0.0, Ppsd + Qk, R=Rtiny), [Rtiny, Qk, xk]),
         ("LQR:nominal", lqr_nominal, [Alti, Blti, Qlq, plq, x0lq, u0lq]), ("MPC:nominal", mpc_nominal, [Alti, Blti, Qlq, plq, x0lq, u0lq]),
         ("System:systime-then-calls", clock_then_call, [tgrid, x0lq, u0lq]),
         ("IMU:constructor-tensors-then-forward", imu_from_caller_tensors, [ip, iv, ir, idt, igy, iac]),
